@@ -52,6 +52,29 @@ impl Table {
         }
     }
 
+    /// For rates at the small end of the range: a sampler that compares a uniform f32 (a multiple of
+    /// 2^-24) with the rate realises the next multiple of 2^-24 at or above it - an absolute error
+    /// below 6e-8, far below the resolution this monitor claims. The count is accepted if it is
+    /// consistent with *some* probability in [p, p + 2^-24].
+    fn cat_granular(&mut self, rep: &mut Report, sig: &str, label: &str, n: u64, count: u64, p: f64) {
+        let hi = (p + 1.0 / 16_777_216.0).min(1.0);
+        let lo_check = check(format!("{}: {label}", self.config), n, count, p);
+        let hi_check = check(format!("{}: {label}", self.config), n, count, hi);
+        let expected_lo = p * n as f64;
+        let expected_hi = hi * n as f64;
+        let within = (count as f64) >= expected_lo - lo_check.tol && (count as f64) <= expected_hi + hi_check.tol;
+        if !within {
+            let cfg = self.config.clone();
+            rep.violation(format!("C12/{sig}"), || json!({"config": cfg, "check": lo_check.to_json(), "accepted_probabilities": [p, hi], "why_an_interval": "a uniform f32 is a multiple of 2^-24; a rate below that resolution is realised as the next multiple"}));
+        }
+        if self.rows.len() < 12 || !within {
+            let mut row = lo_check.to_json();
+            row["ok"] = json!(within);
+            row["accepted_probabilities"] = json!([p, hi]);
+            self.rows.push(row);
+        }
+    }
+
     fn finish(self, rep: &mut Report) {
         rep.distinct(fnv_str(&self.config));
         if rep.wants_sample() && fnv_str(&self.config) % 5 == 0 {
@@ -97,6 +120,15 @@ fn flip_config(kind: &str, rate: Option<f32>, len: usize, n: u64, seed: u64, rep
         None => 1.0 / len as f64,
     };
     let mut t = Table::new(cfg);
+    if p > 0.0 && p < 1e-4 {
+        // below the resolution of an f32 draw: judged up to that granularity (see cat_granular)
+        for i in 0..len {
+            t.cat_granular(rep, "flip-rate", &format!("gene {i} flipped"), n, flips[i], p);
+        }
+        t.cat_granular(rep, "flip-rate", "any gene flipped (aggregated over positions)", n * len as u64, flips.iter().sum(), p);
+        t.finish(rep);
+        return;
+    }
     for i in 0..len {
         t.cat(rep, "flip-rate", &format!("gene {i} flipped"), n, flips[i], p);
     }
